@@ -18,7 +18,14 @@ Oracle (independent of the model): differences of the returned curve against a
 Gauss-Legendre area of the object's own __call__, the mean, invariance of
 differences at shared levels under refinement (and one common shift),
 monotonicity when the function is non-negative, the layout of the table
-against the view.
+against the view AND against the measured master curve recomputed from the base
+tables rising_interval / rising_interval_zeta / zeta_grid (each level of the
+curve listed, the mean taken over all of them) - on records whose storms all end
+inside one grid cell (above, at, below the surface) as well, where the top level
+of the curve is crossed by every rise.  Grids include the two-level grid and
+grids with ONE step over the whole knot range.  Every level array handed to
+compute_rise_curve must come back bit for bit, and a second call with the same
+array must return the same curve.
 History stage (runs first, before this process has built any specific-yield
 function): sequences of functions built one after the other in ONE process -
 spline sets sharing all knot levels / end levels / values and differing in the
@@ -46,6 +53,7 @@ import yaml
 from harness import common as C
 from harness import dataset as D
 from harness import gen_spline as GS
+from harness import gen_pest as GP
 from harness import curves_common as CC
 from harness.props import c14 as P14
 from harness.props import c16 as P16
@@ -185,33 +193,91 @@ def oracle_refinement(grid, W, grid2, W2, scale, out, case):
 
 # ------------------------------------------------------------- FL
 
-def impl_curve(obj, grid, mean):
+def impl_curve(obj, grid, mean, out=None, case=None, what='compute_rise_curve'):
+    """One call of the code under test.  With `out`: the level array handed over is the caller's - it must
+    come back bit for bit as it went in, and a second call with the very same array must return the very
+    same curve (a callee that scales / sorts / shifts its argument in place shows up in one of the two)."""
     import spowtd.simulate_rise as sr
+    arr = np.array(grid, dtype=float)
+    pristine = arr.copy()
     try:
-        W = sr.compute_rise_curve(obj, np.array(grid, dtype=float), mean_storage_mm=mean)
-        return ('ok', [float(w) for w in W])
+        W = sr.compute_rise_curve(obj, arr, mean_storage_mm=mean)
+        res = ('ok', [float(w) for w in W])
     except Exception as e:  # pylint: disable=broad-except
-        return ('err', C.err_of(e))
+        res = ('err', C.err_of(e))
+    if out is None:
+        return res
+    out.count('hygiene:level-array')
+    if not same_bits(arr, pristine):
+        out.violation('oracle', '%s changed the caller\'s array of levels in place: handed over %r, holds %r '
+                      'after the call (first difference at index %d)'
+                      % (what, pristine.tolist()[:6], arr.tolist()[:6], first_difference(arr, pristine)), case=case)
+        return res
+    if res[0] != 'ok':
+        return res
+    if isinstance(W, np.ndarray) and len(arr) and np.shares_memory(W, arr):
+        out.violation('oracle', '%s returns a curve that shares memory with the caller\'s array of levels' % what,
+                      case=case)
+    kept = np.array(W, dtype=float).copy()
+    try:
+        W2 = np.array(sr.compute_rise_curve(obj, arr, mean_storage_mm=mean), dtype=float)
+    except Exception as e:  # pylint: disable=broad-except
+        out.violation('oracle', '%s called a second time with the same array of levels raised %s'
+                      % (what, C.err_of(e)), case=case)
+        return res
+    out.evaluations += 1
+    if not same_bits(arr, pristine):
+        out.violation('oracle', '%s changed the caller\'s array of levels in place on its second call: handed '
+                      'over %r, holds %r' % (what, pristine.tolist()[:6], arr.tolist()[:6]), case=case)
+    elif not same_bits(W2, kept):
+        i = first_difference(W2, kept)
+        out.violation('oracle', '%s called twice with the same array of levels %r and the same mean returns two '
+                      'different curves (index %d: %r, then %r)'
+                      % (what, pristine.tolist()[:6], i, kept.tolist()[i] if i < len(kept) else None,
+                         W2.tolist()[i] if i < len(W2) else None), case=case)
+    elif not same_bits(np.array(W, dtype=float), kept):
+        out.violation('oracle', '%s: the curve returned by the first call changed during the second call' % what,
+                      case=case)
+    return res
 
 
-def fl_cases(specs, seed, out):
-    """Returns (tab case strings, exact case strings, metas)."""
+def same_bits(a, b):
+    a, b = np.asarray(a, dtype=float), np.asarray(b, dtype=float)
+    return a.shape == b.shape and a.tobytes() == b.tobytes()
+
+
+def first_difference(a, b):
+    a, b = np.asarray(a, dtype=float).ravel(), np.asarray(b, dtype=float).ravel()
+    for i in range(min(len(a), len(b))):
+        if a[i:i + 1].tobytes() != b[i:i + 1].tobytes():
+            return i
+    return min(len(a), len(b))
+
+
+def fl_cases(specs, seed, out, wheres=None, tag='fl'):
+    """Returns (tab case strings, exact case strings, metas).  `wheres` / `tag`: another list of grid
+    placements, drawn from its own random stream (the default reproduces the stream it always had)."""
     tab, exact, tmeta, emeta = [], [], [], []
+    wheres = wheres or GS_WHERE
     for k, spec in enumerate(specs):
-        rng = C.rng_for(seed, PROP, 'fl', k)
+        rng = C.rng_for(seed, PROP, tag, k)
         obj = build_sy(spec)
         knots, values, order = knots_of(spec, obj)
-        where, grid = GS.gen_grid(rng, knots, where=GS_WHERE[k % len(GS_WHERE)],
+        where, grid = GS.gen_grid(rng, knots, where=wheres[k % len(wheres)],
                                   nmax=24 if order == 3 else 16)
-        if k % 11 == 10:
+        if k % 11 == 10 and tag == 'fl':
             grid = grid[:1]            # a single level
         mean = rng.choice([0.0, 12.5, -40.0, rng.uniform(-100, 100)])
         grid2 = GS.refine(rng, grid)
         case = dict(level='FL', spec=spec, grid=grid, mean=mean, grid2=grid2)
-        res = impl_curve(obj, grid, mean)
-        res2 = impl_curve(obj, grid2, mean)
+        res = impl_curve(obj, grid, mean, out, case)
+        res2 = impl_curve(obj, grid2, mean, out, case, 'compute_rise_curve (refined grid)')
         out.evaluations += 2
         out.count('FL:%s:%s' % (spec['type'], where))
+        if any(a < knots[0] and b > knots[-1] for a, b in zip(grid, grid[1:])):
+            out.count('FL:one-step-over-the-whole-knot-range')
+            out.count('FL:one-step-over-the-whole-knot-range:%s' % ('two-level grid' if len(grid) == 2 else
+                                                                     'longer grid'))
         if res[0] != 'ok' or res2[0] != 'ok':
             out.violation('oracle', 'compute_rise_curve raised %s on grid %r' % (res[1] if res[0] != 'ok' else res2[1],
                                                                                  grid), case=case)
@@ -238,6 +304,9 @@ def fl_cases(specs, seed, out):
 
 
 GS_WHERE = ['inside', 'straddle_low', 'straddle_high', 'straddle_both', 'below', 'above', 'master']
+# grids with ONE step that covers the whole knot range (the integral over it has both constant tails and the
+# whole spline in one call): the two-level grid, and an ordinary grid with such a step in it
+GS_WHERE_SPAN = ['span_two', 'span_step', 'span_step']
 
 
 def run_shards(kind, strs, metas, out, label, shard):
@@ -305,6 +374,16 @@ def sawtooth(rng):
                 grid_step=rng.choice([1.0, 0.5, 2.0, 2.5]))
 
 
+def sawtooth_top(rng, top=None):
+    """A record whose storms all end in ONE cell of the level grid, strictly inside it: the grid line under
+    the record maximum is the top level of the master curve and is crossed by every rise
+    (harness.gen_pest.gen_shared_top_record; above / at / below the surface)."""
+    rec = GP.gen_shared_top_record(rng, top=top, grid=rng.choice([1.0, 0.5, 2.0, 2.5]))
+    return dict(kind='saw', top=rec['top'], top_cell=rec['top_cell'],
+                saw=dict(ds=GP.to_dataset(rec).to_json(), thr_s=rec['thr_s'], thr_j=rec['thr_j'],
+                         grid_step=rec['grid_mm']))
+
+
 def assemble(src):
     """Build the database through the real CLI. Returns (db, dir) or raises."""
     if src['kind'] == 'plan':
@@ -331,6 +410,56 @@ def read_view(db):
             'SELECT zeta_mm, mean_crossing_depth_mm FROM average_rising_depth')]
     finally:
         con.close()
+
+
+def read_base(db):
+    """The measured master rise curve recomputed from the BASE tables written by `set-zeta-grid` and `rise`
+    (zeta_grid, rising_interval, rising_interval_zeta) - no view, no discrete_zeta: per level number, the mean
+    over the rises that cross it of (offset of the rise + its crossing depth).  Returns rows
+    (level mm, measured storage mm, number of rises) by level ascending."""
+    con = sqlite3.connect(db)
+    try:
+        steps = [float(r[0]) for r in con.execute('SELECT grid_interval_mm FROM zeta_grid')]
+        offsets = {e: float(o) for e, o in con.execute('SELECT start_epoch, rain_depth_offset_mm FROM rising_interval')}
+        crossings = list(con.execute('SELECT start_epoch, zeta_number, mean_crossing_depth_mm '
+                                     'FROM rising_interval_zeta'))
+    finally:
+        con.close()
+    if len(steps) != 1:
+        return []
+    by_level = {}
+    for epoch, number, depth in crossings:
+        by_level.setdefault(int(number), []).append(offsets[epoch] + float(depth))
+    return [(n * steps[0], math.fsum(v) / len(v), len(v)) for n, v in sorted(by_level.items())]
+
+
+def base_oracle(base, rows, what, out, case):
+    """`lists each level of the measured master curve, in mm, with its measured ... storage`: the levels and
+    the measured column of a tabulated output against the master curve of the base tables."""
+    out.count('CL:judged-against-base-tables')
+    have = [float(r[0]) for r in rows]
+    want = [z for z, _, _ in base]
+    missing = [(z, n) for z, _, n in base if z not in set(have)]
+    extra = [z for z in have if z not in set(want)]
+    if missing or extra:
+        out.violation('oracle', '%s does not list each level of the measured master curve: the master rise curve '
+                      'assembled by `rise` (tables rising_interval, rising_interval_zeta, zeta_grid) has %d levels '
+                      '%r .. %r mm, the output lists %d; missing: %s; listed but not in the curve: %r'
+                      % (what, len(want), want[0] if want else None, want[-1] if want else None, len(have),
+                         ', '.join('level %r mm (crossed by %d rises)' % m for m in missing) or 'none', extra),
+                      case=case)
+        return False
+    if have != want:
+        out.violation('oracle', '%s lists the levels of the measured master curve out of order or more than once: '
+                      '%r' % (what, have[:8]), case=case)
+        return False
+    scale = max([1.0] + [abs(s) for _, s, _ in base])
+    for (z, s, n), r in zip(base, rows):
+        if not abs(float(r[1]) - s) <= 1e-9 * scale:
+            out.violation('oracle', '%s: measured storage at level %r mm is listed as %r, the master curve of the '
+                          'base tables has %r (mean over %d rises)' % (what, z, r[1], s, n), case=case)
+            return False
+    return True
 
 
 def run_cli(db, d, spec, observations):
@@ -397,9 +526,19 @@ def cl_cases(srcs, seed, out):
             out.notes.append('dataset %d not assembled: %s' % (k, e))
             continue
         view = read_view(db)
-        if not view:
+        base = read_base(db)
+        if not view and not base:
             out.count('CL:empty-view')
             continue
+        if not view:
+            out.violation('oracle', 'the master rise curve assembled by `rise` has %d levels (base tables), the '
+                          'view average_rising_depth that `simulate rise` reads has none' % len(base), case=case0)
+            continue
+        top = base[-1] if base else None
+        if top and top[0] > 0 and top[2] >= 2:
+            out.count('CL:top level of the master curve above the surface, crossed by >= 2 rises')
+        if src.get('top'):
+            out.count('CL:shared-top:%s' % src['top'])
         levels = sorted(z for z, _ in view)
         kind = CL_KINDS[k % len(CL_KINDS)]
         specs = [spec_for_levels(rng, levels[0], levels[-1], kind)]
@@ -417,7 +556,7 @@ def cl_cases(srcs, seed, out):
                               % (bad[1], bad[2], describe(case)), case=case)
                 continue
             table, obs = tab_res[1], obs_res[1]
-            ok = cl_oracle(view, table, obs, obs_res[2], spec, out, case)
+            ok = cl_oracle(view, table, obs, obs_res[2], spec, out, case, base=base)
             if not ok:
                 continue
             rows = [tuple(float(x) for x in r) for r in table[1:]]
@@ -439,14 +578,33 @@ def cl_cases(srcs, seed, out):
     return tab, exact, tmeta, emeta
 
 
-def cl_oracle(view, table, obs, obs_text, spec, out, case):
-    """Layout of the output against the view, and the curve itself."""
+def cl_oracle(view, table, obs, obs_text, spec, out, case, base=None):
+    """Layout of the output against the master curve of the base tables and against the view, and the
+    curve itself."""
     want = sorted(view)
     hdr = ['Water level, mm', 'Measured storage, mm', 'Simulated storage, mm']
     if not isinstance(table, list) or not table or table[0] != hdr:
         out.violation('oracle', 'table does not start with the header row %r: %r' % (hdr, table[:1]), case=case)
         return False
     rows = table[1:]
+    if base is not None:
+        if any(not isinstance(r, list) or len(r) != 3 for r in rows):
+            out.violation('oracle', 'a row of the table does not hold three values', case=case)
+            return False
+        if not base_oracle(base, rows, 'the table of `spowtd simulate rise`', out, case):
+            return False
+        if not isinstance(obs, list) or len(obs) != len(base):
+            out.violation('oracle', 'the --observations vector of `spowtd simulate rise` has %d entries for the %d '
+                          'levels of the measured master curve' % (len(obs) if isinstance(obs, list) else -1,
+                                                                   len(base)), case=case)
+            return False
+        # the requested mean is the mean of the measured curve: of ALL its levels
+        bmean = math.fsum(s for _, s, _ in base) / len(base)
+        got = math.fsum(float(r[2]) for r in rows) / len(rows)
+        if not abs(got - bmean) <= 1e-9 * max(1.0, abs(bmean), max(abs(float(r[2])) for r in rows)):
+            out.violation('oracle', 'mean of the simulated column %r is not the mean %r of the measured master '
+                          'curve' % (got, bmean), case=case)
+            return False
     if len(rows) != len(want) or any(len(r) != 3 for r in rows):
         out.violation('oracle', 'table has %d rows, the measured master curve has %d levels'
                       % (len(rows), len(want)), case=case)
@@ -575,8 +733,8 @@ def history_library(case, out):
             return
         out.count('history:functions')
         out.count('history:%s:%s' % (case['kind'], 'kept' if case['keep'] else 'discarded'))
-        res = impl_curve(obj, case['grid'], case['mean'])
-        res2 = impl_curve(obj, case['grid2'], case['mean'])
+        res = impl_curve(obj, case['grid'], case['mean'], out, case, who + ': compute_rise_curve')
+        res2 = impl_curve(obj, case['grid2'], case['mean'], out, case, who + ': compute_rise_curve (refined grid)')
         out.evaluations += 2
         if res[0] != 'ok' or res2[0] != 'ok':
             out.violation('oracle', '%s: compute_rise_curve raised %s' % (who, res[1] if res[0] != 'ok' else res2[1]),
@@ -642,6 +800,9 @@ def history_cli(case, out):
             out.violation('oracle', '%s raised %s: %r on an assembled rise curve' % (who, res[1], res[2]), case=case)
             return
         table = res[1]
+        if (isinstance(table, list) and table and table[0] == hdr and all(len(r) == 3 for r in table[1:])
+                and not base_oracle(read_base(db), table[1:], who + ': the table', out, case)):
+            return
         if (not isinstance(table, list) or not table or table[0] != hdr or any(len(r) != 3 for r in table[1:])
                 or [(float(r[0]), float(r[1])) for r in table[1:]] != view):
             out.violation('oracle', '%s: the table does not list the levels and measured storage of the view '
@@ -694,8 +855,9 @@ def run(ctx, out):
     ncl = 24 if tier == 'quick' else 240
     specs = gen_specs(rng, nfl)
     tab, exact, tmeta, emeta = fl_cases(specs, seed, out)
-    run_shards('fl_tab', tab, tmeta, out, 'fl_tab', 12)
-    run_shards('fl_exact', exact, emeta, out, 'fl_exact', 4)
+    stab, sexact, stmeta, semeta = fl_cases(specs[::3], seed, out, wheres=GS_WHERE_SPAN, tag='fl-span')
+    run_shards('fl_tab', tab + stab, tmeta + stmeta, out, 'fl_tab', 12)
+    run_shards('fl_exact', exact + sexact, emeta + semeta, out, 'fl_exact', 4)
     fl_errors(out, 'fl_err')
     srcs = []
     for k in range(ncl):
@@ -704,6 +866,10 @@ def run(ctx, out):
             srcs.append(dict(kind='plan', plan=CC.make_plan(r)))
         else:
             srcs.append(dict(kind='saw', saw=sawtooth(r)))
+    # after the sources it always had: records whose top grid level is shared by all rises
+    tops = ['positive', 'surface', 'positive', 'negative']
+    for k in range(6 if tier == 'quick' else 48):
+        srcs.append(sawtooth_top(C.rng_for(seed, PROP, 'src-top', k), top=tops[k % len(tops)]))
     tab, exact, tmeta, emeta = cl_cases(srcs, seed, out)
     run_shards('cl_tab', tab, tmeta, out, 'cl_tab', 4)
     run_shards('cl_exact', exact, emeta, out, 'cl_exact', 2)
@@ -712,7 +878,12 @@ def run(ctx, out):
                 '(published + random admissible parameters) objects x grids of seven placements relative to the '
                 'knots, each with a refinement; CL: `spowtd simulate rise` with and without --observations on '
                 'datasets assembled through the CLI (planted-truth plans and sawtooth records), spline knots '
-                'placed to cover / end inside / lie beyond the measured curve, and PEATCLSM. Non-trivial: a '
+                'placed to cover / end inside / lie beyond the measured curve, and PEATCLSM; plus records whose storms '
+                'all end inside one grid cell above / at / below the surface (top level of the master curve crossed by '
+                'every rise), the table judged against the master curve recomputed from the base tables '
+                '(rising_interval, rising_interval_zeta, zeta_grid). FL also: grids with one step over the whole knot '
+                'range (two-level grids; such a step inside a longer grid); every level array handed over must come '
+                'back bit for bit and a second call with it must return the same curve. Non-trivial: a '
                 'grid of >= 3 levels reaching outside the knot range; distinct by (object, grid). History: '
                 'sequences of 3-5 functions built in one process (spline: eight kinds of sharing; PEATCLSM: same soil '
                 '/ different sd, same sd / one soil parameter changed) on one grid reaching beyond all knots, and '
@@ -746,7 +917,7 @@ def replay(case, out):
         tab, exact, metas = [], [], []
         scale = None
         for g in (case['grid'], case['grid2']):
-            res = impl_curve(obj, g, case['mean'])
+            res = impl_curve(obj, g, case['mean'], out, case)
             if res[0] != 'ok':
                 out.violation('oracle', 'compute_rise_curve raised %s on grid %r' % (res[1], g), case=case)
                 return
@@ -775,7 +946,7 @@ def replay(case, out):
         if tab_res[0] != 'ok' or obs_res[0] != 'ok':
             out.violation('oracle', '`spowtd simulate rise` raised on an assembled rise curve', case=case)
             return
-        if not cl_oracle(view, tab_res[1], obs_res[1], obs_res[2], spec, out, case):
+        if not cl_oracle(view, tab_res[1], obs_res[1], obs_res[2], spec, out, case, base=read_base(db)):
             return
         rows = [tuple(float(x) for x in r) for r in tab_res[1][1:]]
         obj = build_sy(spec)
